@@ -1,5 +1,7 @@
 package main
 
+import "github.com/karino2/folang/pkg/frt"
+
 type IorS interface {
 	IorS_Union()
 }
